@@ -63,6 +63,11 @@ CHECKS = {
     text="Decides symmetry: on the same extracted tables as C03, A[p,q] == A[q,p] for every pair of non-Dirichlet nodes, for both strategies, with all four Jacobian entries independent (non-orthogonal mappings, mixed terms present), non-uniform spacings and the across-origin coupling; plus positivity of every diagonal entry (necessary for definiteness). Positive definiteness itself depends on geometry values (arr*att > art^2/4) and is not decided.",
     note="Trusted: as C03. Not decided: positive definiteness; the smoothers' line blocks (symmetry before one-sided storage) are examined with C06 when built.",
     ref="DESIGN.md section 4 / C05"),
+ "C04": dict(
+    level="proof", technique="static analysis: symbolic interpretation of the direct-solver matrix assembly (incl. CSR container and stencil offset maps) into exact tables, compared with the residual operator table by identity testing; structural rule for the solve path",
+    text="Decides that the coarse solve factorises exactly the operator the residual applies: buildSolverMatrix of both strategies is interpreted from source on representative grids (down to the smallest admissible) and the assembled CSR matrix, read back as an exact table, equals the residual operator's table entry by entry (hence all four implementations agree, with C03); every CSR slot receives one column from all its writers, no column is duplicated, sizes agree; the constructor factorises the assembled matrix and solveInPlace uses that factorisation on the caller's vector. That sparse LU without pivoting is then accurate ('zero up to rounding') is numerical and is not decided.",
+    note="Trusted: as C03. Not decided: the LU arithmetic (C16 is not applicable), fill-in behaviour.",
+    ref="DESIGN.md section 4 / C04"),
 }
 NA = {
  "C02": "order of accuracy is a limit statement about numerical error under refinement; no clause is visible in the shape of the code (its code-shaped preconditions are checked under C03/C10/C19)",
